@@ -72,6 +72,7 @@ type Op struct {
 	Cond       func() bool
 	Obj        uintptr // identity of the object touched (for happens-before hashing)
 	Obj2       uintptr // second object touched, if any
+	siteHash   uint64
 }
 
 func (o *Op) SiteString() string {
@@ -134,8 +135,9 @@ type Move struct {
 	Alt   int
 	Peer  int // partner task of a rendezvous, -1 otherwise
 	PAlt  int
-	PCost int // preemption cost
-	DCost int // deviation cost
+	PCost int    // preemption cost
+	DCost int    // deviation cost
+	Next  uint64 // happens-before fingerprint of the state right after this move
 	t, p  *Task
 }
 
@@ -188,6 +190,7 @@ type Sched struct {
 	exec     *Exec
 	closedCh map[uintptr]reflect.Value
 	trace    bool
+	delay    bool
 	objHB    map[uintptr]uint64
 	hbsum    uint64
 }
@@ -226,9 +229,14 @@ func startWatchdog() {
 
 // Config of one execution.
 type Config struct {
-	MaxSteps int
-	Choose   Chooser
-	Trace    bool
+	// DelayCost selects delay bounding (Emmi, Qadeer, Rakamaric): tasks are
+	// taken round-robin starting with the one that ran last, and choosing the
+	// k-th enabled task in that order costs k. Otherwise preemption bounding
+	// (CHESS): leaving a still-enabled task costs 1, everything else is free.
+	DelayCost bool
+	MaxSteps  int
+	Choose    Chooser
+	Trace     bool
 }
 
 // Run executes root as task 0 under the scheduler until every task has
@@ -248,6 +256,7 @@ func Run(cfg Config, root func()) *Exec {
 		exec:     &Exec{},
 		closedCh: map[uintptr]reflect.Value{},
 		trace:    cfg.Trace,
+		delay:    cfg.DelayCost,
 		objHB:    map[uintptr]uint64{},
 	}
 	S = s
@@ -263,6 +272,10 @@ func Run(cfg Config, root func()) *Exec {
 		}
 		idx := 0
 		if len(moves) > 1 {
+			for i := range moves {
+				d := s.hbCompute(&moves[i])
+				moves[i].Next = d.fingerprint()
+			}
 			if s.choose != nil {
 				idx = s.choose(len(s.exec.Points), moves, s.fingerprint())
 			}
@@ -418,17 +431,6 @@ func (s *Sched) fingerprint() uint64 {
 	return mix(s.hbsum, l)
 }
 
-func (s *Sched) setTaskHB(t *Task, h uint64) {
-	s.hbsum += h - t.hb
-	t.hb = h
-}
-
-func (s *Sched) setObjHB(o uintptr, seq int, h uint64) {
-	old := s.objHB[o]
-	s.hbsum += h - old
-	s.objHB[o] = h
-}
-
 // objID returns the identity of the object an operation alternative touches.
 func (o *Op) objID(alt int) uintptr {
 	switch o.Kind {
@@ -444,39 +446,88 @@ func (o *Op) objID(alt int) uintptr {
 	return o.Obj
 }
 
-// hbStep folds a move into the happens-before histories.
-func (s *Sched) hbStep(m *Move) {
+type hbDelta struct {
+	th, ph    uint64 // new histories of the task and its partner
+	obj, obj2 uintptr
+	oh, oh2   uint64 // new histories of the objects touched
+	sum       uint64
+	last      *Task
+}
+
+// hbCompute derives the happens-before histories after move m without
+// changing anything.
+func (s *Sched) hbCompute(m *Move) hbDelta {
 	t := m.t
 	op := t.op
-	h := mix(t.hb, strhash(op.SiteString())^uint64(op.Kind)<<56^uint64(m.Alt)<<40)
-	obj := op.objID(m.Alt)
+	var d hbDelta
+	if op.siteHash == 0 {
+		op.siteHash = strhash(op.SiteString()) | 1
+	}
+	h := mix(t.hb, op.siteHash^uint64(op.Kind)<<56^uint64(m.Alt)<<40)
+	d.sum = s.hbsum
+	d.obj = op.objID(m.Alt)
 	if m.p != nil {
 		h = mix(h, m.p.hb)
 		h = mix(h, uint64(m.PAlt))
 	}
-	if obj != 0 {
-		// object identities are addresses; they are folded in through the
-		// object's own history (creation order is deterministic per trace),
-		// not by value.
-		oh, ok := s.objHB[obj]
+	if d.obj != 0 {
+		oh, ok := s.objHB[d.obj]
 		if !ok {
 			oh = 0x1234567
+		} else {
+			d.sum -= oh
 		}
 		h = mix(h, oh)
-		s.setObjHB(obj, 0, h)
+		d.oh = h
+		d.sum += h
 	}
-	if op.Obj2 != 0 {
-		oh, ok := s.objHB[op.Obj2]
+	if op.Obj2 != 0 && op.Obj2 != d.obj {
+		d.obj2 = op.Obj2
+		oh, ok := s.objHB[d.obj2]
 		if !ok {
 			oh = 0x7654321
+		} else {
+			d.sum -= oh
 		}
 		h = mix(h, oh)
-		s.setObjHB(op.Obj2, 0, h)
+		d.oh2 = h
+		d.sum += h
 	}
-	s.setTaskHB(t, h)
+	d.th = h
+	d.sum += h - t.hb
+	d.last = t
 	if m.p != nil {
-		s.setTaskHB(m.p, mix(h, 0xABCDEF))
+		d.ph = mix(h, 0xABCDEF)
+		d.sum += d.ph - m.p.hb
+		// the receiver continues last unless the sender was running before
+		snd, rcv := m.t, m.p
+		if !m.t.op.Cases[m.Alt].Send {
+			snd, rcv = m.p, m.t
+		}
+		d.last = rcv
+		if s.last == snd {
+			d.last = snd
+		}
 	}
+	return d
+}
+
+func (d *hbDelta) fingerprint() uint64 { return mix(d.sum, uint64(d.last.ID)+1) }
+
+// hbStep folds a move into the happens-before histories.
+func (s *Sched) hbStep(m *Move) {
+	d := s.hbCompute(m)
+	if d.obj != 0 {
+		s.objHB[d.obj] = d.oh
+	}
+	if d.obj2 != 0 {
+		s.objHB[d.obj2] = d.oh2
+	}
+	m.t.hb = d.th
+	if m.p != nil {
+		m.p.hb = d.ph
+	}
+	s.hbsum = d.sum
 }
 
 func (s *Sched) execute(m *Move) {
@@ -510,9 +561,12 @@ func (s *Sched) execute(m *Move) {
 	b.wake <- grant{alt: m.PAlt, pair: true}
 	<-s.events
 	<-s.events
+	keep := s.last == snd
 	s.resume(snd, grant{})
 	s.resume(rcv, grant{})
-	if s.last != snd {
+	if keep {
+		s.last = snd
+	} else {
 		s.last = rcv
 	}
 }
@@ -548,9 +602,22 @@ func (s *Sched) enabled() []Move {
 	if s.last != nil && s.last.state == stParked {
 		order = append(order, s.last)
 	}
-	for _, t := range s.tasks {
-		if t.state == stParked && t != s.last {
-			order = append(order, t)
+	if s.delay && s.last != nil {
+		for _, t := range s.tasks {
+			if t.state == stParked && t.ID > s.last.ID {
+				order = append(order, t)
+			}
+		}
+		for _, t := range s.tasks {
+			if t.state == stParked && t.ID < s.last.ID {
+				order = append(order, t)
+			}
+		}
+	} else {
+		for _, t := range s.tasks {
+			if t.state == stParked && t != s.last {
+				order = append(order, t)
+			}
 		}
 	}
 	lastEnabled := false
@@ -639,6 +706,20 @@ func (s *Sched) enabled() []Move {
 				add(Move{Task: t.ID, Alt: len(op.Cases), Peer: -1, t: t})
 			}
 		}
+	}
+	if s.delay {
+		// cost = rank of the move's owner among the enabled tasks in
+		// round-robin order
+		rank := -1
+		var prev *Task
+		for i := range moves {
+			if moves[i].t != prev {
+				rank++
+				prev = moves[i].t
+			}
+			moves[i].PCost = rank
+		}
+		return moves
 	}
 	if s.last != nil && lastEnabled {
 		for i := range moves {
